@@ -5,6 +5,7 @@ import SqfModel.Config
 import SqfModel.Api
 import SqfModel.Control
 import SqfModel.Pbo
+import SqfModel.Vfs
 import Driver.Proto
 import Std.Data.HashMap
 /-!
@@ -396,6 +397,39 @@ def verbPbo (f : List (List Nat)) : List Nat :=
       | some en' => hexOf (Sqf.Pbo.entryBytes file en')
       | none => str "!") ++ str ";")
 
+/-! ### vfs -/
+
+def splitOn1 (bs : List Nat) : List (List Nat) := splitOn 1 bs
+def splitOn2 (bs : List Nat) : List (List Nat) := splitOn 2 bs
+
+def verbVfs (f : List (List Nat)) : List Nat :=
+  let root := str "/$R"
+  let files : List (List Nat) := match f[0]? with
+    | some fs => if fs.isEmpty then [] else (splitOn1 fs).map (fun e => root ++ [47] ++ (splitOn2 e).headD [])
+    | none => []
+  let ms : List Sqf.Vfs.Mapping := match f[1]? with
+    | some m => if m.isEmpty then [] else (splitOn1 m).map (fun e =>
+        let kv := splitOn2 e
+        let physrel := kv.headD []
+        let virt := Sqf.Vfs.toSlashes ((kv[1]?).getD [])
+        { virt := (Sqf.Vfs.splitSlash virt).filter (fun s => !s.isEmpty),
+          phys := if physrel.isEmpty then root else root ++ [47] ++ physrel })
+    | none => []
+  let reqs := match f[2]? with
+    | some r => if r.isEmpty then [] else splitOn1 r
+    | none => []
+  let outs := reqs.map (fun e =>
+    let q := splitOn2 e
+    let kind := q.headD []
+    if kind == str "info" then
+      match Sqf.Vfs.resolve ms files ((q[3]?).getD []) ((q[1]?).getD []) (if ((q[2]?).getD []).isEmpty then [] else root ++ [47] ++ (q[2]?).getD []) with
+      | some i => str "P=" ++ i.physical ++ str "|V=" ++ i.virtual_
+      | none => str "none"
+    else str "~")
+  match outs with
+  | [] => []
+  | o :: rest => rest.foldl (fun acc x => acc ++ str " ; " ++ x) o
+
 def handle (e : Env) (verb : String) (f : List (List Nat)) : List Nat :=
   if verb == "asm" then verbAsm e f
   else if verb == "lex" then verbLex f
@@ -408,6 +442,7 @@ def handle (e : Env) (verb : String) (f : List (List Nat)) : List Nat :=
   else if verb == "ctl" then verbCtl e f
   else if verb == "ctl3" then verbCtl3 e f
   else if verb == "pbo" then verbPbo f
+  else if verb == "vfs" then verbVfs f
   else str "bad-verb"
 
 partial def loop (e : Env) (h : IO.FS.Stream) (out : IO.FS.Stream) : IO Unit := do
